@@ -80,6 +80,7 @@ type ruleStats struct {
 	WallS        float64           `json:"wall_s"`
 
 	first    []json.RawMessage
+	firstAny []json.RawMessage
 	smallest []sample
 	hashes   map[uint64]struct{}
 }
@@ -185,6 +186,9 @@ func newStats(prop, rule string) *ruleStats {
 
 func (s *ruleStats) record(raw []byte, v Verdict) {
 	s.Evaluations++
+	if len(s.firstAny) < 2 && len(raw) < 16384 {
+		s.firstAny = append(s.firstAny, append(json.RawMessage(nil), raw...))
+	}
 	if v.Excluded {
 		s.Excluded++
 	}
@@ -216,6 +220,9 @@ func (s *ruleStats) flush(start time.Time) {
 	s.Samples = append([]json.RawMessage(nil), s.first...)
 	for i := 0; i < len(s.smallest) && i < 2; i++ {
 		s.Samples = append(s.Samples, s.smallest[i].c)
+	}
+	if len(s.Samples) == 0 {
+		s.Samples = s.firstAny // no non-trivial case in this run: show what was generated
 	}
 	s.WallS = time.Since(start).Seconds()
 	base := filepath.Join(outDir(), fmt.Sprintf("%s.%s.%d", s.Property, s.Rule, s.Shard))
